@@ -130,6 +130,8 @@ def run(tier):
     nfiles = len(c16k.SCRIPTS) + len(c16k.IO_FILES)
     for sc in range(nfiles):
         conds.append(chrun.Condition("C16:io:file=%d" % sc, [("sc", "int"), ("outk", "int"), ("ai", "int")], "sc == %d and 0 <= outk < %d and 0 <= ai < %d" % (sc, len(c16k.OUT_KINDS), len(c16k.IO_ARGS)), "    return c16k.k_io(sc, outk, ai)"))
+    for pi in range(len(c16k.WS_PAIRS)):
+        conds.append(chrun.Condition("C16:ws:%s" % c16k.WS_PAIRS[pi][0], [("pi", "int"), ("wi", "int"), ("pos", "int"), ("use_out", "bool")], "pi == %d and 0 <= wi < %d and 0 <= pos < 4" % (pi, len(c16k.WS)), "    return c16k.k_ws(pi, wi, pos, use_out)"))
     for n1 in range(4):
         conds.append(
             chrun.Condition(
@@ -200,6 +202,8 @@ def concretise(cid, args):
     if cid.startswith("C16:pool:"):
         a = P["names"][args["ni"]] + P["seps"][args["si"]] + P["values"][args["vi"]]
         return {"c_args": [a], "use_out": bool(args["use_out"]), "dep": [None, "ast.unparse", "oneliner"][args["dep"]], "si": args["sc"]}
+    if cid.startswith("C16:ws:"):
+        return {"c_args": [c16k.ws_arg(args["pi"], args["wi"], args["pos"])], "use_out": bool(args["use_out"]), "dep": None, "si": 0}
     if cid.startswith("C16:io:"):
         return {"c_args": list(c16k.IO_ARGS[args["ai"]]), "use_out": int(args["outk"]), "dep": None, "si": int(args["sc"])}
     if cid.startswith("C16:two:"):
